@@ -151,7 +151,8 @@ class Peer:
         object with that key and compares the unpickled object with it (==, hash, dict lookup)."""
         if self.p is None or self.p.poll() is not None:
             self.start()
-        assert self.p and self.p.stdin and self.p.stdout
+        if not (self.p and self.p.stdin and self.p.stdout):  # not an assert statement: workers may run under python -O
+            raise AssertionError('self.p and self.p.stdin and self.p.stdout')
         self.p.stdin.write(json.dumps({"pickle": blob.hex(), "key": key, "dirs": dirs}) + "\n")
         self.p.stdin.flush()
         line = self.p.stdout.readline()
